@@ -230,6 +230,13 @@ func verif_HandleVisitor(c *Controller, m *msg.NatHoleVisitor, transporter trans
 //
 //verif:noblock (*~/pkg/nathole.Controller).HandleVisitor props=C20,C16 recv
 
+// The owner's side: telling the waiting visitor handler that the owner's
+// answer arrived never blocks - a duplicate (or late) NatHoleClient for a live
+// session finds the one-slot notification channel full and must simply return
+// (every handler runs in a goroutine of its own; a blocked one is never freed).
+//
+//verif:noblock (*~/pkg/nathole.Controller).HandleClient props=C20,C16
+
 // ------------------------------------------------------------ score records
 
 // Monitor invariant of the analyzer: the table exists and holds no nil records.
